@@ -1,3 +1,62 @@
-From TM Require Import Base Frame.
-Theorem C03_placeholder : fc_value (fc_new 1) = 1.
-Proof. reflexivity. Qed.
+(* C03 -- no byte sequence can crash, hang or bloat a decoder, client or server.
+   In the model an out-of-range index, a checked arithmetic overflow, a failed debug assertion and
+   unreachable!() are all the outcome [Panic] (DPanic / NPanic / CRPanic / TPanic at the higher
+   layers), so "never Panic" is "never reads outside the supplied data, never overflows, never
+   asserts".  All theorems quantify over ALL byte strings / event scripts / service behaviours. *)
+From Coq Require Import Lia.
+From TM Require Import Base Frame Pdu RtuCodec TcpCodec Framed Client Server PduDecode FramedProofs
+  ClientProofs TypedProofs EndToEnd Totality.
+
+(* the three PDU decoding entry points and the response dispatcher: a value or an error, never a panic *)
+Theorem C03_request_pdu_total : forall bs, dec_req bs <> Panic.
+Proof. exact dec_req_no_panic. Qed.
+Theorem C03_response_pdu_total : forall bs, dec_rsp bs <> Panic.
+Proof. exact dec_rsp_no_panic. Qed.
+Theorem C03_exception_pdu_total : forall bs, dec_exc bs <> Panic.
+Proof. exact dec_exc_no_panic. Qed.
+Theorem C03_response_result_pdu_total : forall bs, dec_rsp_pdu bs <> Panic.
+Proof. exact dec_rsp_pdu_no_panic. Qed.
+
+(* the four stream decoders: never a panic, the buffer never grows, and an item strictly shrinks it *)
+Theorem C03_client_stream_decoder_total : forall p, dec_total (client_dec p).
+Proof. exact client_dec_total. Qed.
+Theorem C03_server_stream_decoder_total : forall p, dec_total (server_dec p).
+Proof. exact server_dec_total. Qed.
+
+(* progress of the framing layer: every return is no panic, never increases
+   (buffered bytes + bytes still in the transport script + number of script events), and every
+   delivered item strictly decreases it -- so no input makes it loop *)
+Theorem C03_framed_progress : forall p evs st bg r st' evs' bg',
+  next (server_dec p) st evs bg = (r, st', evs', bg') ->
+  r <> NPanic /\ (mu st' evs' <= mu st evs)%nat /\ (forall i, r = NItem i -> (mu st' evs' < mu st evs)%nat).
+Proof. intros p. exact (next_total (server_dec p) (server_dec_total p)). Qed.
+
+(* a client call fed arbitrary reply bytes returns a result or keeps waiting: never a panic; the typed
+   methods likewise *)
+Theorem C03_client_call_never_panics : forall p m st req bg, fst (call p m st req bg) <> CRPanic.
+Proof. exact call_no_panic. Qed.
+Theorem C03_typed_methods_never_panic : forall p m st req bg,
+  is_typed_req req = true -> fst (typed p m st req bg) <> TRErr CRPanic.
+Proof. exact typed_no_panic. Qed.
+Theorem C03_client_encoder_never_panics : forall p m h r, client_enc p m h r <> Panic.
+Proof. exact client_enc_no_panic. Qed.
+
+(* a server connection fed arbitrary bytes, with an arbitrary service and arbitrary write behaviour:
+   the loop never panics and terminates within fuel = bytes + events + 2 (it serves, reports or waits) *)
+Theorem C03_server_connection_total : forall p m q wq fq svc,
+  ~ In TOutOfFuel (serve_conn p m q wq fq svc) /\ ~ In TPanic (serve_conn p m q wq fq svc).
+Proof. exact serve_conn_terminates. Qed.
+
+(* bounded buffering of the MBAP layer: once the 7-byte header is there, a frame is taken (or refused)
+   as soon as 7 + (length field - 1) <= 65541 bytes are buffered; the layer never asks for more *)
+Theorem C03_mbap_frame_bound : forall t1 t2 p1 p2 l1 l2 uid rest b r,
+  l1 < 256 -> l2 < 256 -> 65535 <= len rest ->
+  adu_decode (t1 :: t2 :: p1 :: p2 :: l1 :: l2 :: uid :: rest) = (b, r) -> r <> DNone.
+Proof.
+  intros t1 t2 p1 p2 l1 l2 uid rest b r H1 H2 Hl H. unfold adu_decode in H.
+  destruct (of_be16 l1 l2 =? 0); [injection H as <- <-; discriminate|].
+  assert (Hlt : of_be16 l1 l2 < 65536) by (apply BaseLemmas.of_be16_lt; assumption).
+  match type of H with context [?a <? ?b] => destruct (N.ltb_spec a b) as [Hs|Hs] end.
+  - exfalso. unfold HEADER_LEN in Hs. rewrite !BaseLemmas.len_cons in Hs. lia.
+  - destruct (negb _); injection H as <- <-; discriminate.
+Qed.
